@@ -594,9 +594,19 @@ class HTranslator:
                "Import ListNotations.", "Open Scope pyh_scope.", "", f"(* ===== {MODULE}: class {CLASS} ===== *)"]
         self.emitted = set()
         for m in METHODS:
+            self.emit_or_skip(out, m)
+        return "\n".join(out) + "\n"
+
+    def emit_or_skip(self, out, m):
+        """a method outside the fragment is left out, with the reason as a comment (and so, in turn, are the
+        methods that call it): the proofs about the missing definitions fail, the others stay checked"""
+        try:
             out.append(self.fns[m].emit())
             self.emitted.add(m)
-        return "\n".join(out) + "\n"
+        except Reject as ex:
+            msg = str(ex).replace("*)", "* )").replace("(*", "( *").replace('"', "'")
+            print(f"gen_source_heap: REJECTED {CLASS}.{m}: {ex}", file=sys.stderr)
+            out.append(f"(* REJECTED {CLASS}.{m}: {msg} *)\n")
 
 
 # ---------------------------------------------------------------------------------------------
@@ -710,8 +720,7 @@ class RunsTranslator(HTranslator):
                            f"Definition S_H_new_{name} {params} : hm pv :=\n"
                            f"  hy_new_obj {coq_str(name)} [{flds}].\n")
         for m in RUN_METHODS:
-            out.append(self.fns[m].emit())
-            self.emitted.add(m)
+            self.emit_or_skip(out, m)
         out.append("End Ext.")
         return "\n".join(out) + "\n"
 
